@@ -37,11 +37,12 @@ func (c14) Thresholds(tier string) map[string]int64 {
 		"dialogues":                       1200,
 		"dialogue-prefixes-compared":      3000,
 		"dialogue-prefix-with-error":      300,
+		"probe-repeats-a-history-line":    3000,
 	}
 }
 
 func (c14) Rule() string {
-	return "case = 20 pairs (history, probe line) on one parser value each: the history is 0-8 lines drawn from the well-formed generator of C13 and from the hostile generators of C15 (so histories contain failing parses, including parses that fail after markers were already read and lines with open-form replacement markers of different names), the probe is a well-formed or a hostile line; plus one dialogue in which the same marked-up probe line is reached through 3 different prefixes (different options with marked-up lines, one prefix containing a line whose markup fails). Oracle: ParseMarkup(probe) on the used parser value equals ParseMarkup(probe) on a fresh value - error/no error, Text, and every attribute incl. Position, Length, properties and SourcePosition; in the dialogue, the probe line's Text and Attributes are equal across prefixes and equal to the fresh-parser result. Non-trivial: the history is non-empty and the probe has >=1 attribute. Distinct by hash of history+probe."
+	return "case = 20 pairs (history, probe line) on one parser value each: the history is 0-8 lines drawn from the well-formed generator of C13 and from the hostile generators of C15 (so histories contain failing parses, including parses that fail after markers were already read and lines with open-form replacement markers of different names), the probe is a well-formed or a hostile line, one time in four a line of the history again (the last one, or an earlier one); plus one dialogue in which the same marked-up probe line is reached through 3 different prefixes (different options with marked-up lines, one prefix containing a line whose markup fails). Oracle: ParseMarkup(probe) on the used parser value equals ParseMarkup(probe) on a fresh value - error/no error, Text, and every attribute incl. Position, Length, properties and SourcePosition; in the dialogue, the probe line's Text and Attributes are equal across prefixes and equal to the fresh-parser result. Non-trivial: the history is non-empty and the probe has >=1 attribute. Distinct by hash of history+probe."
 }
 
 func (c14) Assumptions() []string {
@@ -67,6 +68,10 @@ func c14Line(c *core.Ctx) (string, string) {
 	}
 	// a line that fails after at least one marker has been read
 	mc := gen.Markup(r)
+	if r.Chance(1, 3) {
+		// an open marker that is still open when the parse fails on a wrong close
+		return r.Pick("[shake]", "[zz a=1]", "[q][w]") + mc.Src + r.Pick(" [/nothing]", "[/wave] tail", " [/q2]"), "fails-after-markers"
+	}
 	return mc.Src + r.Pick(" [oops", " [select value=zz/]", " [/nothing]", " [a=", " [b p=\"unterminated]"), "fails-after-markers"
 }
 
@@ -96,6 +101,14 @@ func (p c14) Run(c *core.Ctx) {
 			}
 		}
 		probe, pk := c14Line(c)
+		if n > 0 && r.Chance(1, 4) {
+			// the very line parsed last (or an earlier one) again
+			probe, pk = hist[n-1], "repeats-the-last-history-line"
+			if r.Chance(1, 3) {
+				probe, pk = hist[r.Intn(n)], "repeats-a-history-line"
+			}
+			c.Feature("probe-repeats-a-history-line")
+		}
 		var fresh markup.LineParser
 		want, werr, wpan := parseDirect(&fresh, probe)
 		got, gerr, gpan := parseDirect(&used, probe)
